@@ -3,8 +3,9 @@
 
 pub const N_ATOMS: usize = 31;
 /// Atoms beyond the universe's alphabet, used by dense sweeps only: 31 = uniform noise of amplitude
-/// `seed`, 32 = 128 silent samples followed by such noise.
-pub const N_ATOMS_EXT: usize = 34;
+/// `seed`, 32 = 128 silent samples followed by such noise, 33 = a full-scale alternating stretch in a smooth
+/// block, 34 / 35 = a block that opens with 8 / 3 samples alternating near the extremes and is quiet afterwards.
+pub const N_ATOMS_EXT: usize = 36;
 
 pub const ATOM_NAMES: [&str; N_ATOMS] = [
     "silence", "dc_max", "dc_min", "dc_one", "alt_maxmin", "alt_minmax", "impulse_first",
@@ -164,6 +165,22 @@ pub fn atom(id: usize, bps: u32, n: usize, ch: usize, block: usize, seed: u64) -
                 let loud = (64..128).contains(&t);
                 let smooth = ((2.0 * std::f64::consts::PI * (t + 17 * block) as f64 / 211.0).sin() * mx as f64 * 0.5).round() as i64;
                 v.push(if loud { (if t % 2 == 0 { mx } else { mn }) as i32 } else { clamp(smooth, bps) })
+            });
+        }
+        34 | 35 => {
+            // the block maximum sits in the warm-up positions of a predictor and the rest is three orders of
+            // magnitude quieter (two slow sines plus LSB noise, well predicted by LPC): every later prediction
+            // still multiplies the loud samples by the coefficients
+            let head = if id == 34 { 8 } else { 3 };
+            let q = (mx / 8192).max(3) as f64;
+            (0..n).for_each(|t| {
+                if t < head.min(n / 2) {
+                    v.push(if t % 2 == 0 { (mx - mx / 16) as i32 } else { (mn + mx / 16) as i32 })
+                } else {
+                    let tf = (t + 5 * block) as f64;
+                    let x = (tf * 1.9).sin() * q * 0.66 + (tf * 0.7).sin() * q * 0.33;
+                    v.push(clamp(x.round() as i64 + rng.sym(1), bps))
+                }
             });
         }
         _ => panic!("unknown atom {id}"),
